@@ -3,4 +3,5 @@ package main
 // genAll: further generated files are added here property by property.
 func genAll(repo string) {
 	genCodec(repo)
+	genResolver(repo)
 }
